@@ -2011,8 +2011,56 @@ def m_result_ok(I, fr, a, ck):
     return Adt('Option', alts)
 
 
+def m_ord_max_min(I, fr, a, ck):
+    """<T as Ord>::max / min / clamp for integer T"""
+    t = _int_ty((ck.selfraw or '').strip())
+    if t is None:
+        raise Unsupported('Ord::%s for %s' % (ck.method, ck.selfraw))
+    bits, signed = t
+    if all(isinstance(x, int) for x in a):
+        return {'max': max, 'min': min}[ck.method](a[0], a[1]) if ck.method in ('max', 'min') else max(a[1], min(a[2], a[0]))
+    X, Y = I.to_bv(a[0], bits), I.to_bv(a[1], bits)
+    lt = (X < Y) if signed else z3.ULT(X, Y)
+    if ck.method == 'max':
+        return z3.If(lt, Y, X)
+    if ck.method == 'min':
+        return z3.If(lt, X, Y)
+    Z = I.to_bv(a[2], bits)
+    gt = (X > Z) if signed else z3.UGT(X, Z)
+    return z3.If(lt, Y, z3.If(gt, Z, X))
+
+
+def m_string_add(I, fr, a, ck):
+    x = I.peel_all(a[0], fr) if isinstance(a[0], (SRef, MRef)) else a[0]
+    y = I.peel_all(a[1], fr)
+    if isinstance(x, Str) and isinstance(y, Str):
+        if isinstance(x.s, str) and isinstance(y.s, str):
+            return Str(x.s + y.s)
+        xs = z3.StringVal(x.s) if isinstance(x.s, str) else x.s
+        ys = z3.StringVal(y.s) if isinstance(y.s, str) else y.s
+        return Str(z3.Concat(xs, ys))
+    raise EngineError('String + on %s' % type(x).__name__)
+
+
+def m_slice_join(I, fr, a, ck):
+    s = _seq(I, fr, a[0])
+    sep = I.peel_all(a[1], fr)
+    parts = []
+    for x in s.items:
+        if not isinstance(x, Str) or not isinstance(x.s, str):
+            raise EngineError('join over non-concrete strings')
+        parts.append(x.s)
+    return Str(sep.s.join(parts))
+
+
 def register_ints(M):
     A = M.add
+    A('String', 'Add', 'add', m_string_add)
+    A('slice', None, 'join', m_slice_join)
+    A('slice', None, 'concat', m_slice_join)
+    for t in ('usize', 'u64', 'i64', 'isize', 'u32', 'i32', 'u8', 'u16'):
+        for m in ('max', 'min', 'clamp'):
+            A(t, 'Ord', m, m_ord_max_min)
     A('Result', None, 'map_err', m_result_map_err)
     A('Option', None, 'and_then', m_option_and_then)
     A('Result', None, 'map', m_result_map)
